@@ -73,9 +73,18 @@ pub fn get_rewards(deps: Deps, address: String) -> Result<RewardsResponse, Contr
         let mut total_reward = Uint128::zero();
 
         for epoch_id in first_claimable_epoch..=current_epoch {
+            // get user weight for this epoch
+            let user_weight_at_epoch =
+                ADDRESS_WEIGHT_HISTORY.may_load(deps.storage, (&address.clone(), epoch_id))?;
+
             // check if the flow is active in this epoch
             if epoch_id < flow.start_epoch {
-                // the flow is not active yet, skip
+                // the flow is not active yet, skip. A weight change recorded for this epoch still
+                // counts: it is the user's weight from here on, until the next recorded change
+                if let Some(user_weight_at_epoch) = user_weight_at_epoch {
+                    (last_epoch_user_weight_update, last_user_weight_seen) =
+                        (epoch_id, user_weight_at_epoch);
+                }
                 continue;
             } else if epoch_id >= *expanded_end_epoch {
                 // this flow has finished
@@ -117,10 +126,6 @@ pub fn get_rewards(deps: Deps, address: String) -> Result<RewardsResponse, Contr
                 flow_emitted_tokens
                     .insert(epoch_id, emission_per_epoch.checked_add(emitted_tokens)?);
             }
-
-            // get user weight for this epoch
-            let user_weight_at_epoch =
-                ADDRESS_WEIGHT_HISTORY.may_load(deps.storage, (&address.clone(), epoch_id))?;
 
             // this is done this way because we don't save the weight for every single epoch for the user,
             // but rather keep a registry on when it changes. So we need to check if the user has a weight
